@@ -19,10 +19,11 @@ const (
 	StDur
 	StFault
 	StKill
+	StAPI // which of several equivalent public API calls the workflow program uses
 	NumStreams
 )
 
-var StreamNames = [NumStreams]string{"gen", "sched", "select", "map", "dur", "fault", "kill"}
+var StreamNames = [NumStreams]string{"gen", "sched", "select", "map", "dur", "fault", "kill", "api"}
 
 type rng struct{ s [4]uint64 }
 
